@@ -239,6 +239,34 @@ def order_specs(ctx, rng):
     return out
 
 
+def shadow_specs(ctx, rng):
+    """Trees in which a module FILE stands next to a PACKAGE of the same name (x.py next to x/ - legal, unusual, and
+    outside the input language of the scan oracle, DESIGN section 5 guard 4).  Whatever such a tree means, it means the
+    same under every directory enumeration order: the scans below are only compared with each other."""
+    out = []
+    for _ in range(30 if ctx.quick else 600):
+        p = projgen.random_project(rng, max_depth=rng.choice([2, 3]), n_stmts=rng.randint(6, 24), odd=False)
+        files = [f["name"] for f in p["files"] if f["py"] and f["name"][-1] != "__init__" and f["name"][-1].isidentifier()]
+        dirs = {tuple(d) for d in p["dirs"]}
+        files = [f for f in files if tuple(f) not in dirs]
+        if not files:
+            continue
+        f = rng.choice(files)
+        p = dict(p, dirs=p["dirs"] + [list(f)], files=p["files"] + [{"name": list(f) + ["inner"], "py": True}],
+                 stmts=list(p["stmts"]))
+        importable = [m["name"] for m in p["files"] if m["py"] and all(c.isidentifier() for c in m["name"])]
+        for src in (list(f), list(f) + ["inner"]):
+            t = rng.choice(importable)
+            p["stmts"].append({"file": src, "form": "import", "level": 0, "module": list(t), "names": [], "pos": [],
+                               "lay": "line", "alias": False, "grp": None})
+        ep = sc.ScanEpisode(p)
+        ep.scan()
+        for _k in range(5):
+            ep.scan(shuffle=rng.randint(0, 10 ** 6))
+        out.append(ep.spec)
+    return out
+
+
 def _edges_of(world, seed):
     """All edges (with their hierarchy flag) and nodes of the real graph built from one listing order."""
     from pytestarch.eval_structure.networkxgraph import NetworkxGraph
@@ -387,6 +415,19 @@ def run(ctx):
             fails.append({"prop": "C15", "clause": "scan-result-depends-on-earlier-scans", "detail": {"scans": bad},
                           "event": {"scan": bad[0], "first_order": ra[bad[0]], "other_order": rb.get(bad[0])},
                           "spec": {"driver": "scan-orders", "a": a_spec, "b": b_spec}, "episode_events": None})
+    # (O1b) a module file next to a package of the same name, scanned under several directory enumeration orders
+    shspecs = shadow_specs(ctx, rng)
+    shadow_diffs = 0
+    for sp, evs in zip(shspecs, runner.run_specs(shspecs)):
+        obs = [(e["out"], e["modules"], e["imports"]) for e in evs if e["k"] == "scan"]
+        if any(o != obs[0] for o in obs[1:]):
+            shadow_diffs += 1
+            k = next(i for i, o in enumerate(obs) if o != obs[0])
+            fails.append({"prop": "C15", "clause": "scan-of-a-module-file-next-to-a-package-depends-on-the-listing-order",
+                          "detail": {"first": obs[0][0], "differs_at_scan": k},
+                          "event": {"sorted_listing": {"modules": obs[0][1], "imports": obs[0][2]},
+                                    "other_listing": {"modules": obs[k][1], "imports": obs[k][2]}},
+                          "spec": {"driver": "shadow", "a": sp}, "episode_events": None})
     # (O2) the same module rules on one architecture in two evaluation orders (fresh rule objects): state that leaks
     # between rule objects or through the process shows up as a rule whose outcome depends on what ran before it
     rpairs = rule_order_specs(ctx, rng)
@@ -470,7 +511,7 @@ def run(ctx):
            "traces_validated_against_impl": n_traces, "trace_events": events,
            "simulated_histories": len(hists), "history_length": 40, "applies_compared_with_isolated_evaluation": applies,
            "same_law_instances": laws, "hash_seeds": SEEDS, "episodes_per_seed": len(hspecs),
-           "seed_differences": seed_diffs, "listing_order_cases": listing_cases, "layer_and_label_order_differences": fam_order_diffs, "layer_list_order_differences": list_order_diffs, "rule_order_pairs": len(rpairs), "rule_order_differences": rule_order_diffs, "scan_order_pairs": len(ospecs), "scan_order_differences": order_diffs, "evaluations": applies + laws + len(hspecs) * len(SEEDS),
+           "seed_differences": seed_diffs, "listing_order_cases": listing_cases, "layer_and_label_order_differences": fam_order_diffs, "layer_list_order_differences": list_order_diffs, "rule_order_pairs": len(rpairs), "rule_order_differences": rule_order_diffs, "scan_order_pairs": len(ospecs), "shadowed_module_trees": len(shspecs), "shadowed_module_tree_differences": shadow_diffs, "scan_order_differences": order_diffs, "evaluations": applies + laws + len(hspecs) * len(SEEDS),
            "distinct_applies_on_nonempty_architectures": len(distinct_applies),
            "distinct_nontrivial": len(distinct_applies) + laws,
            "rule": "one case = one Apply inside a 40-step history (compared with the isolated evaluation), one "
@@ -518,6 +559,12 @@ def replay(ctx, rp):
     if spec["driver"] == "graph":
         from harness.checks import scan_common as sc
         return sc.replay(ctx, rp)
+    if spec["driver"] == "shadow":
+        evs = runner.run_specs([spec["a"]], 1)[0]
+        obs = [(e["out"], e["modules"], e["imports"]) for e in evs if e["k"] == "scan"]
+        fails = [{"prop": "C15", "clause": "scan-of-a-module-file-next-to-a-package-depends-on-the-listing-order",
+                  "detail": {}, "event": None, "spec": spec, "episode_events": None}] if any(o != obs[0] for o in obs[1:]) else []
+        return CheckResult(fails=fails, coverage={"replayed_scans": len(obs)})
     if spec["driver"] == "list-orders":
         sp = spec["a"]
         rv = dict(sp, items=[dict(it, rule=dict(it["rule"], objs=list(reversed(it["rule"]["objs"]))),
